@@ -765,6 +765,8 @@ class Grammar:
             return self.mk("Comment", attrs={"what": base}, src=self.src(mi, node))
         if base in ("stringEnd", "string_end"):
             return self.mk("StringEnd", src=self.src(mi, node))
+        if base in ("quotedString", "quoted_string", "dblQuotedString", "dbl_quoted_string", "sglQuotedString", "sgl_quoted_string"):
+            return self.mk("QuotedString", attrs={"what": base}, src=self.src(mi, node))
         if base in LAYOUT_SENSITIVE_CTORS:
             return self.mk("LayoutSensitive", attrs={"what": base}, src=self.src(mi, node))
         return None
